@@ -290,3 +290,11 @@ func DialTimeout(addr string, greeting time.Duration) (*Client, error) {
 	c.Greeting = l.Text
 	return c, nil
 }
+
+// Abort drops the connection the hard way (SO_LINGER 0: the peer gets a reset, its next write fails at once) (added for C19).
+func (c *Client) Abort() error {
+	if tc, ok := c.conn.(*net.TCPConn); ok {
+		_ = tc.SetLinger(0)
+	}
+	return c.conn.Close()
+}
